@@ -217,7 +217,7 @@ def gen_unit(ctx, n_random, gen=False):
     return cases
 
 
-def oracle_fini(dt, sets, calls, frees=None, mallocs=None):
+def oracle_fini(dt, sets, calls, frees=None, mallocs=None, allow_null_dups=False, extra_ok=()):
     """the property: calls = list of (cell, value) in which cell is an int or 'oob'"""
     d = {}
     for k, v in sets:
@@ -229,7 +229,11 @@ def oracle_fini(dt, sets, calls, frees=None, mallocs=None):
             return "a destructor was fetched from a cell outside the 1024-entry key table (called with %d)" % v
         if cell not in dt:
             return "a destructor was called for key %d, which has none registered" % cell
-        if v != d.get(cell, 0):
+        if (cell, v) in extra_ok:
+            continue                    # a value the destructor pass itself stored (not held when the thread began to terminate)
+        if v == 0 and allow_null_dups and cell in seen:
+            continue                    # the pass was re-entered from a destructor: slots already handled are seen again as NULL
+        if v != d.get(cell, 0) and not (v == 0 and allow_null_dups):
             owner = [k for k, x in d.items() if x == v]
             return "the destructor of key %d was called with %d, which is %s" % (
                 cell, v, ("the value of key %d" % owner[0]) if owner else "not this thread's value under that key")
@@ -332,6 +336,26 @@ def gen_lib(ctx, quick):
             k = r.choice(BOUNDARY); P = r.rng(1, 1 << 40)
             ths.append((kind, [(k, P), RC(k), (k, P)]))
         cases.append((-r.choice([1, 2, 4]), has, ths[:MAXT_LIB]))
+    # destructors that DO something while they run: yield 1-3 times (2,3,4), contain a cancellation point (5), block on a
+    # mutex another thread holds (6), store a new value under a key the pass has not / has already visited (7 / 8)
+    for W in ((1, 2, 4) if quick else (1, 2, 2, 3, 3, 4, 4, 4)):
+        nk = 48
+        has = [r.choice([0, 1, 1, 2, 3, 4, 5, 6, 6]) for _ in range(nk)]
+        reserved = set()
+        for j in (5, 21, 37):
+            has[j] = 7; has[j + 1] = r.choice([0, 1]); reserved.add(j + 1)
+        for j in (12, 28, 44):
+            has[j] = 8; has[j - 1] = 1; reserved.add(j - 1)
+        free_slots = [j for j in range(nk) if j not in reserved]
+        ths = []
+        for i in range(12):
+            kind = i % 3
+            n = r.choice([2, 3, 5, 8])
+            slots = sorted(set(r.choice(free_slots) for _ in range(n)))
+            if i < 6 and len(slots) >= 2 and has[slots[0]] not in (7, 8):
+                has[slots[0]] = 5       # the first value-holding key's destructor contains a cancellation point
+            ths.append((kind, [(j, r.rng(1, 1 << 40)) for j in slots]))
+        cases.append((W, has, ths))
     # random subsets, mixed destructors, NULL values, threads that store nothing
     for _ in range(3 if quick else 40):
         nk = r.choice([1, 17, 300, NK])
@@ -358,7 +382,7 @@ def run_lib_case(libexe, drv, case, vline="variant 0 0"):
     if "done" not in lines:
         return "library run did not complete (exit %d): %s" % (rc, out[-200:]), len(ths), 0, 0, out
     keys = None
-    per, rec = {}, {}
+    per, rec, rets = {}, {}, {}
     for l in lines:
         w = l.split()
         if not w:
@@ -367,6 +391,9 @@ def run_lib_case(libexe, drv, case, vline="variant 0 0"):
             keys = [int(x) for x in w[1:]]
         elif w[0].startswith("T"):
             ci = w.index("calls")
+            for t_ in w[:ci]:
+                if t_.startswith("ret="):
+                    rets[int(w[0][1:])] = t_[4:]
             per[int(w[0][1:])] = [(int(t.split(":")[0]), int(t.split(":")[1])) for t in w[ci + 1:]]
             if "rec" in w[:ci]:
                 rec[int(w[0][1:])] = [(int(t.split(":")[0]), int(t.split(":")[1])) for t in w[w.index("rec") + 1:ci]]
@@ -416,7 +443,23 @@ def run_lib_case(libexe, drv, case, vline="variant 0 0"):
             raw = [(tag, v) for tag, v in raw if tag not in dead]
         calls = [(key_of[tag] if 0 <= tag < len(key_of) else "oob", v) for tag, v in raw]
         ncalls += len(calls)
-        msg = oracle_fini(dt, list(cur.items()), calls)
+        # what the destructors of the keys this thread holds do while they run (see harness/c11_dtor_lib.c)
+        held_beh = [(slot, v, has[slot]) for slot, v in sc if slot >= 0 and v != 0 and has[slot] > 1]
+        reenter = kind == 2 and any(b == 5 for _, _, b in held_beh)
+        extra = set()
+        for slot, v, b in held_beh:
+            if b == 7:
+                extra.add((key_of[(slot + 1) % len(key_of)], v + 7))
+            elif b == 8:
+                extra.add((key_of[(slot - 1) % len(key_of)], v + 7))
+        if reenter or extra:
+            lifo = False                # the model's walk treats a destructor call as atomic and without effect on the tree
+        exp_ret = {0: "17185", 1: "4660", 2: "C"}[kind]
+        if rets.get(i) is not None and rets[i] != exp_ret:
+            return ("thread %d (termination kind %d): myth_join delivered %s, expected %s" % (i, kind, rets[i], exp_ret)), len(ths), ncalls, 0, out
+        msg = oracle_fini(dt, list(cur.items()), calls, allow_null_dups=reenter, extra_ok=extra)
+        if msg and held_beh:
+            msg += " [destructor behaviours of the held keys: %s]" % ", ".join("key %d: %d" % (key_of[sl], b) for sl, _, b in held_beh)
         if msg:
             hist = "; ".join(("setspecific(key %d, %d)" % (o[1], o[2])) if o[0] == "s" else
                              ("key_delete(%d)" % o[1] if o[0] == "x" else "key_delete(%d) + key_create -> same index" % o[1])
